@@ -28,6 +28,8 @@ def pi8 (s : Stack) : Outgoing × List (Dest × (Bool × Nat)) := (s.outgoing, s
 @[simp] theorem pi8_with_subLog (s : Stack) (x : List (Addr × Nat × List Eventgroup)) : pi8 { s with subLog := x } = pi8 s := rfl
 @[simp] theorem pi8_with_findLog (s : Stack) (x : List (Nat × Nat)) : pi8 { s with findLog := x } = pi8 s := rfl
 @[simp] theorem pi8_with_findMarks (s : Stack) (x : List (Nat × Nat)) : pi8 { s with findMarks := x } = pi8 s := rfl
+@[simp] theorem pi8_with_ansLog (s : Stack) (x : List (Nat × Addr × Nat × Nat)) : pi8 { s with ansLog := x } = pi8 s := rfl
+@[simp] theorem pi8_logAnswer (s : Stack) (i : Nat) (a : Addr) (d : Nat) : pi8 (s.logAnswer i a d) = pi8 s := rfl
 @[simp] theorem pi8_markFind (s : Stack) (n : Nat) : pi8 (s.markFind n) = pi8 s := rfl
 @[simp] theorem pi8_with_offLog (s : Stack) (x : List (Nat × OEv × Nat)) : pi8 { s with offLog := x } = pi8 s := rfl
 @[simp] theorem pi8_logOffer (s : Stack) (i : Nat) (e : OEv) : pi8 (s.logOffer i e) = pi8 s := rfl
